@@ -1,9 +1,10 @@
 """C18 -- adjustment sets reported by DirectedAcyclicGraph are exactly the back-door admissible sets; arrows that
 would create a cycle are rejected and leave the graph unchanged.
 
-K: the Lean model (driver op `dag`) and zepid's DirectedAcyclicGraph run the same *program* (sequence of
-   add_arrow / add_arrows / add_from_networkx calls); compared: per-call outcome (ok / DAGError kind), final node
-   and arrow sets, the family of adjustment sets and of minimal sets.
+K: the Lean model (driver op `dag`) and zepid's DirectedAcyclicGraph run the same *history* on one object (sequence
+   of add_arrow / add_arrows / add_from_networkx / calculate_adjustment_sets calls); compared: per-call outcome
+   (ok / DAGError kind), final node and arrow sets, and after EVERY calculation the family of adjustment sets and of
+   minimal sets.
 D: an oracle independent of the model -- back-door admissibility by *path blocking* (enumerate the simple paths of
    the graph without the arrows leaving the exposure; collider rule) -- against `adjustment_sets`,
    `minimal_adjustment_sets`; and a reference simulation of the program (own DFS) against raise / no-raise and
@@ -19,7 +20,8 @@ import numpy as np
 
 REQUIRED = ['reach_iff', 'desc_iff', 'anc_iff', 'check_iff_admissible', 'check_iff_backdoor', 'check_order_independent', 'listed_iff',
             'listed_iff_set', 'minimal_eq_smallest', 'reject_unchanged', 'arrow_reject_iff', 'arrows_reject_iff',
-            'acyclic_inv', 'acyclic_from_init', 'inv_run', 'inv_from_init', 'listed_iff_program']
+            'acyclic_inv', 'acyclic_from_init', 'inv_run', 'inv_from_init', 'listed_iff_program',
+            'calculate_reports_current']
 RULE = ('graphs: every DAG containing exposure->outcome on 2..5 labelled nodes (1+8+168+8816, both tiers; the thorough '
         'tier draws more orders per graph), each as several programs: add_arrow per arrow, '
         'add_arrows in 1-3 batches, add_from_networkx (optionally after arrows that must be forgotten), with node '
@@ -27,7 +29,12 @@ RULE = ('graphs: every DAG containing exposure->outcome on 2..5 labelled nodes (
         '6-8 nodes at three densities; ten classical d-separation structures (collider with descendants, three-parent '
         'collider, nested colliders, butterfly, long M, ...) on 6-8 nodes perturbed by random extra arrows; a malformed stream (arrow closing a cycle, self-loop on old/new node, '
         'batch closing a cycle through a new node, cyclic networkx graph, networkx graph without exposure/outcome) '
-        'interleaved with valid calls. distinct = distinct (labelled program); non-trivial = some candidate set '
+        'interleaved with valid calls. Every case is a HISTORY on one object: calculate_adjustment_sets() is called '
+        'after random calls (also twice in a row, also after rejected calls) and always at the end; the "hist" kind '
+        'calculates on an earlier graph (another DAG, or a sub-DAG), then reaches the target graph by add_arrow / '
+        'add_arrows / add_from_networkx, calculates again, optionally a rejected call and a third calculation; each '
+        'calculation is judged against the oracle on the graph as it is at that moment. distinct = distinct '
+        '(labelled program); non-trivial = some candidate set '
         'is admissible and some is not, or the program contains a rejected call')
 ASSUMPTIONS = ['networkx.descendants/ancestors/has_path/is_directed_acyclic_graph compute graph reachability '
                '(measured against an own DFS on every generated graph)',
@@ -83,6 +90,8 @@ class Ref:
 
     def apply(self, op):
         """returns 'ok' / 'cyclic' / 'badInput'; state changes only on 'ok'"""
+        if op[0] == 'c':
+            return 'ok'
         if op[0] == 'a':
             nodes, edges = self._merged(self.nodes, self.edges, [(op[1], op[2])])
         elif op[0] == 's':
@@ -176,9 +185,10 @@ def all_dags(n):
 
 
 # ------------------------------------------------------------------ running a program on the real code
-def run_impl(lab, x, y, program, calc=True):
-    """program over model numbers; lab maps number -> zEpid label.  Returns dict with per-call status, snapshots of
-    self.dag around each call, final graph, adjustment sets (numbers again)."""
+def run_impl(lab, x, y, program):
+    """history over model numbers (edits and ('c',) = calculate_adjustment_sets); lab maps number -> zEpid label.
+    Returns per-call status, whether self.dag was left alone by raising calls and by calculations, the final graph,
+    and for every calculation the two result attributes together with the graph at that moment."""
     import networkx as nx
     from zepid.causal.causalgraph import DirectedAcyclicGraph
     from zepid.causal.causalgraph.dag import DAGError
@@ -189,7 +199,7 @@ def run_impl(lab, x, y, program, calc=True):
         return lab[v]
 
     d = DirectedAcyclicGraph(exposure=L(x), outcome=L(y))
-    status, unchanged = [], []
+    status, unchanged, reports = [], [], []
 
     def snap():
         return [inv[v] for v in d.dag.nodes], sorted((inv[s], inv[t]) for s, t in d.dag.edges)
@@ -197,27 +207,31 @@ def run_impl(lab, x, y, program, calc=True):
         before = snap()
         obj = d.dag
         try:
-            if op[0] == 'a':
+            if op[0] == 'c':
+                d.calculate_adjustment_sets()
+                reports.append({'sets': [[inv[v] for v in s] for s in d.adjustment_sets],
+                                'minimal': [[inv[v] for v in s] for s in d.minimal_adjustment_sets],
+                                'nodes': before[0], 'edges': before[1]})
+                unchanged.append(snap() == before)
+            elif op[0] == 'a':
                 d.add_arrow(source=L(op[1]), endpoint=L(op[2]))
+                unchanged.append(None)
             elif op[0] == 's':
                 d.add_arrows(pairs=[(L(s), L(t)) for s, t in op[1]])
+                unchanged.append(None)
             else:
                 g = nx.DiGraph()
                 g.add_nodes_from([L(v) for v in op[1]])
                 g.add_edges_from([(L(s), L(t)) for s, t in op[2]])
                 d.add_from_networkx(g)
+                unchanged.append(None)
             status.append('ok')
-            unchanged.append(None)
         except DAGError as e:
             status.append('cyclic' if 'yclic' in str(e) else 'badInput')
             unchanged.append(snap() == before and d.dag is obj)
     nodes, edges = snap()
-    res = {'status': status, 'unchanged': unchanged, 'nodes': nodes, 'edges': edges, 'isdag':
-           bool(nx.is_directed_acyclic_graph(d.dag))}
-    if calc:
-        d.calculate_adjustment_sets()
-        res['sets'] = [[inv[v] for v in s] for s in d.adjustment_sets]
-        res['minimal'] = [[inv[v] for v in s] for s in d.minimal_adjustment_sets]
+    res = {'status': status, 'unchanged': unchanged, 'nodes': nodes, 'edges': edges, 'reports': reports,
+           'isdag': bool(nx.is_directed_acyclic_graph(d.dag))}
     return res, d
 
 
@@ -228,7 +242,9 @@ def enc_edges(es):
 def enc_program(program):
     out = []
     for op in program:
-        if op[0] == 'a':
+        if op[0] == 'c':
+            out.append('c')
+        elif op[0] == 'a':
             out.append('a:%d>%d' % (op[1], op[2]))
         elif op[0] == 's':
             out.append('s:' + enc_edges(op[1]))
@@ -269,35 +285,78 @@ def check_h(chk, ref):
     return ok
 
 
+def norm_op(op):
+    if op[0] == 'c':
+        return ('c',)
+    if op[0] == 'a':
+        return tuple(op)
+    if op[0] == 's':
+        return (op[0], [tuple(e) for e in op[1]])
+    return (op[0], list(op[1]), [tuple(e) for e in op[2]])
+
+
 def check_program(chk, drv, lab, x, y, program, kind, stats):
-    """one case: run the program on zEpid, on the reference, on the model; gates D, K, H"""
+    """one case = one history on one object: run it on zEpid, on the reference, on the model; gates D, K, H.
+    Every calculate_adjustment_sets() in the history is judged against the oracle on the graph as it is then."""
     lab = {int(k): v for k, v in lab.items()}
-    program = [tuple(op) if op[0] == 'a' else (op[0], [tuple(e) for e in op[1]]) if op[0] == 's' else
-               (op[0], list(op[1]), [tuple(e) for e in op[2]]) for op in program]
+    program = [norm_op(op) for op in program]
+    if not program or program[-1] != ('c',):
+        program.append(('c',))
     case = {'labels': {str(k): v for k, v in lab.items()}, 'x': x, 'y': y, 'program': [list(op) for op in program],
             'kind': kind}
+    key = (kind, repr(program), repr(sorted(lab.items())))
     ref = Ref(x, y)
-    want = [ref.apply(op) for op in program]
+    want, want_graphs = [], []
+    for op in program:
+        want.append(ref.apply(op))
+        if op[0] == 'c':
+            want_graphs.append((list(ref.nodes), set(ref.edges)))
     if not check_h(chk, ref):
         chk.discard('networkx reachability disagrees with the reference DFS')
         return True
-    ok_all = True
     try:
         res, _ = run_impl(lab, x, y, program)
     except Exception as e:  # anything but DAGError is not a documented outcome
-        chk.case(case, (kind, repr(program), repr(sorted(lab.items()))))
+        chk.case(case, key)
         chk.d(False, 'unexpected exception %s: %s' % (type(e).__name__, e), case)
         return False
-    want_fam = oracle_family(ref.nodes, ref.edges, x, y)
-    ncand = len(ref.nodes) - 2
+    try:
+        ok_all = judge(chk, case, key, kind, ref, want, want_graphs, res, x, y)
+    except Exception as e:  # output the harness cannot digest is a failure of the implementation, not of the tool
+        chk.d(False, 'output not digestible (%s: %s)' % (type(e).__name__, e), case)
+        return False
+    # ---- K: model vs implementation
+    if drv is not None:
+        rep, line = drv.ask('dag', x=x, y=y, ops=enc_program(program))
+        try:
+            k = rep['status'] == 'ok' and _k_compare(rep, res, stats)
+        except Exception:
+            k = False
+        chk.k(k, 'dag history: model vs DirectedAcyclicGraph', {'case': case, 'model': rep, 'line': line})
+        ok_all = ok_all and k
+    return ok_all
+
+
+def judge(chk, case, key, kind, ref, want, want_graphs, res, x, y):
+    cache = {}
+    fams = []
+    for nodes, edges in want_graphs:
+        ck = (tuple(nodes), frozenset(edges))
+        if ck not in cache:
+            cache[ck] = oracle_family(nodes, edges, x, y)
+        fams.append(cache[ck])
     rejected = any(w != 'ok' for w in want)
-    nontrivial = (0 < len(want_fam) < 2 ** ncand) or rejected
-    case['impl'] = {k: res[k] for k in ('status', 'nodes', 'edges', 'sets', 'minimal')}
-    case['oracle'] = {'status': want, 'edges': sorted(ref.edges), 'admissible': jfam(want_fam)}
-    chk.case(case, (kind, repr(program), repr(sorted(lab.items()))) if nontrivial else None,
-             sample=case if (nontrivial and chk.evals % 997 == 0) else None)
+    nontrivial = rejected or len(cache) > 1 or any(
+        0 < len(f) < 2 ** (len(g[0]) - 2) for f, g in zip(fams, want_graphs))
+    case['impl'] = {k: res[k] for k in ('status', 'nodes', 'edges', 'reports')}
+    case['oracle'] = {'status': want, 'edges': sorted(ref.edges),
+                      'admissible_at_each_calculation': [jfam(f) for f in fams],
+                      'graph_at_each_calculation': [sorted(g[1]) for g in want_graphs]}
+    chk.case(case, key if nontrivial else None, sample=case if (nontrivial and chk.evals % 997 == 0) else None)
     chk.count('kind_' + kind)
     chk.count('nodes_%d' % len(ref.nodes))
+    chk.count('calculations_%d' % min(len(want_graphs), 4))
+    chk.count('distinct_graphs_calculated_%d' % min(len(cache), 3))
     for w in want:
         chk.count('call_' + w)
     # ---- D: editing calls
@@ -305,49 +364,56 @@ def check_program(chk, drv, lab, x, y, program, kind, stats):
     chk.d(d1, 'a call raises DAGError iff it would leave a directed cycle (or the networkx graph lacks '
               'exposure/outcome)', case)
     d2 = all(u is not False for u in res['unchanged'])
-    chk.d(d2, 'a raising call leaves self.dag unchanged (same nodes and arrows)', case)
+    chk.d(d2, 'a raising call (and a calculation) leaves self.dag unchanged (same nodes and arrows)', case)
     d3 = res['isdag'] and set(res['nodes']) == set(ref.nodes) and set(res['edges']) == ref.edges
     chk.d(d3, 'the stored graph is the DAG made of the accepted arrows', case)
-    # ---- D: adjustment sets == admissible family (path-blocking oracle), minimal == smallest listed
-    got = fam(res['sets'])
-    d4 = got == want_fam
-    chk.d(d4, 'adjustment_sets == back-door admissible subsets (path-blocking oracle)', case)
-    msz = min((len(s) for s in res['sets']), default=0)
-    d5 = fam(res['minimal']) == {s for s in got if len(s) == msz}
-    chk.d(d5, 'minimal_adjustment_sets == listed sets of smallest size', case)
-    ok_all = d1 and d2 and d3 and d4 and d5
-    # ---- K: model vs implementation
-    if drv is not None:
-        rep, line = drv.ask('dag', x=x, y=y, ops=enc_program(program), calc=1)
-        k = rep['status'] == 'ok'
-        k = k and _k_compare(rep, res, stats)
-        chk.k(k, 'dag program: model vs DirectedAcyclicGraph', {'case': case, 'model': rep, 'line': line})
-        ok_all = ok_all and k
-    return ok_all
+    # ---- D: at every calculation, adjustment sets == admissible family of the graph as it is at that moment
+    d4 = len(res['reports']) == len(fams)
+    d5 = True
+    for r, f in zip(res['reports'], fams):
+        got = fam(r['sets'])
+        d4 = d4 and got == f
+        msz = min((len(s) for s in r['sets']), default=0)
+        d5 = d5 and fam(r['minimal']) == {s for s in got if len(s) == msz}
+    chk.d(d4, 'after every calculate_adjustment_sets(): adjustment_sets == back-door admissible subsets of the '
+              'current graph (path-blocking oracle)', case)
+    chk.d(d5, 'after every calculate_adjustment_sets(): minimal_adjustment_sets == listed sets of smallest size',
+          case)
+    return d1 and d2 and d3 and d4 and d5
 
 
 def _k_compare(rep, res, stats):
     calls = [] if rep['calls'] in ('', '[]') else rep['calls'].split(',')
     mnodes = [] if rep['nodes'] in ('', '[]') else [int(v) for v in rep['nodes'].split(',')]
     medges = [] if rep['edges'] in ('', '[]') else [tuple(int(v) for v in e.split('>')) for e in rep['edges'].split(',')]
-    msets, mmin = dec_sets(rep['sets']), dec_sets(rep['minimal'])
+    mreps = [] if rep['reports'] in ('', '[]') else [tuple(dec_sets(t) for t in r.split(':'))
+                                                      for r in rep['reports'].split('/')]
     ok = (calls == res['status'] and set(mnodes) == set(res['nodes']) and sorted(medges) == res['edges'] and
-          fam(msets) == fam(res['sets']) and fam(mmin) == fam(res['minimal']) and
-          len(msets) == len(res['sets']) and len(mmin) == len(res['minimal']))
+          len(mreps) == len(res['reports']))
+    order = mnodes == res['nodes']
+    for (msets, mmin), r in zip(mreps, res['reports']):
+        ok = (ok and fam(msets) == fam(r['sets']) and fam(mmin) == fam(r['minimal']) and
+              len(msets) == len(r['sets']) and len(mmin) == len(r['minimal']))
+        order = order and msets == r['sets'] and mmin == r['minimal']
     # informational only: the model also reproduces networkx's node order and itertools' listing order
-    if ok and (mnodes != res['nodes'] or msets != res['sets'] or mmin != res['minimal']):
+    if ok and not order:
         stats['order_mismatch'] += 1
     return ok
 
 
 # ------------------------------------------------------------------ program generators
-def relabel(rng, nodes, edges, x=0, y=1):
-    """random model numbers (a permutation of 0..n-1, so exposure/outcome are not always 0/1) and random labels"""
+def relabel(rng, nodes, edges, x=0, y=1, spare=2):
+    """random model numbers (a permutation of 0..n-1, so exposure/outcome are not always 0/1) and random labels;
+    `spare` further numbers get labels too (nodes that only rejected or superseded calls mention)"""
     n = len(nodes)
     perm = rng.permutation(n).tolist()
     num = {v: perm[i] for i, v in enumerate(nodes)}
     labs = rng.choice(len(POOL), size=n, replace=False).tolist()
     lab = {num[v]: POOL[labs[i]] for i, v in enumerate(nodes)}
+    rest = [l for l in POOL if l not in lab.values()]
+    for k in range(spare):
+        lab[n + k] = rest[k]
+    relabel.num = num
     return lab, num[x], num[y], [num[v] for v in nodes], [(num[s], num[t]) for s, t in edges]
 
 
@@ -357,30 +423,107 @@ def shuffled(rng, xs):
     return [xs[i] for i in idx]
 
 
-def programs_for(rng, nodes, edges, x, y, modes):
-    """programs that build the DAG (nodes, edges); isolated nodes can only be expressed by add_from_networkx"""
+C = ('c',)
+
+
+def sprinkle(rng, prog, p=0.3):
+    """calculate_adjustment_sets() after some of the calls (sometimes twice in a row)"""
+    out = []
+    for op in prog:
+        out.append(op)
+        if rng.random() < p:
+            out.append(C)
+            if rng.random() < 0.2:
+                out.append(C)
+    return out
+
+
+def build_ops(rng, nodes, edges, x, y, mode):
+    """calls that turn a fresh object into the DAG (nodes, edges)"""
+    es = shuffled(rng, edges)
+    if mode == 'arrow':
+        if rng.random() < 0.5:
+            es = [e for e in es if e != (x, y)]      # the constructor already added exposure -> outcome
+        return [('a', s, t) for s, t in es]
+    if mode == 'arrows':
+        k = int(rng.integers(1, 4))
+        cuts = sorted(rng.integers(0, len(es) + 1, size=k - 1).tolist())
+        return [('s', c) for c in [es[a:b] for a, b in zip([0] + cuts, cuts + [len(es)])]]
+    return [('g', shuffled(rng, nodes), es)]
+
+
+def rejected_op(rng, nodes, edges, x, y):
+    """a call that must raise on the DAG (nodes, edges)"""
+    succ = succ_of(edges)
+    fresh = max(nodes) + 1
+    r = rng.random()
+    if r < 0.4:
+        cand = [(s, t) for t in nodes for s in reach_set(succ, t) if s != t]
+        s, t = cand[int(rng.integers(len(cand)))]
+        return ('a', s, t)
+    if r < 0.55:
+        v = nodes[int(rng.integers(len(nodes)))] if rng.random() < 0.5 else fresh
+        return ('a', v, v)
+    if r < 0.8:
+        cand = [(u, w) for w in nodes for u in reach_set(succ, w)]
+        u, w = cand[int(rng.integers(len(cand)))]
+        return ('s', shuffled(rng, [(u, fresh), (fresh, w)]))
+    if r < 0.9:
+        return ('g', shuffled(rng, nodes), shuffled(rng, list(edges) + [(y, x)]))
+    keep = [v for v in nodes if v != (x if rng.random() < 0.5 else y)]
+    return ('g', keep, [(s, t) for s, t in edges if s in keep and t in keep])
+
+
+def programs_for(rng, nodes, edges, x, y, modes, prev=None):
+    """histories whose last graph is the DAG (nodes, edges).  Isolated nodes can only be expressed by
+    add_from_networkx.  `prev` = arrows of another DAG on the same nodes (containing x -> y), used by the histories
+    that calculate on one graph, then edit / replace it, then calculate again."""
     used = {v for e in edges for v in e}
     isolated = [v for v in nodes if v not in used]
     out = []
     for m in modes:
-        es = shuffled(rng, edges)
-        if m == 'arrow' and not isolated:
-            if rng.random() < 0.5:
-                es = [e for e in es if e != (x, y)]      # the constructor already added exposure -> outcome
-            out.append(('arrow', [('a', s, t) for s, t in es]))
-        elif m == 'arrows' and not isolated:
-            k = int(rng.integers(1, 4))
-            cuts = sorted(rng.integers(0, len(es) + 1, size=k - 1).tolist())
-            chunks = [es[a:b] for a, b in zip([0] + cuts, cuts + [len(es)])]
-            out.append(('arrows', [('s', c) for c in chunks]))
+        if m in ('arrow', 'arrows') and not isolated:
+            out.append((m, sprinkle(rng, build_ops(rng, nodes, edges, x, y, m))))
         elif m == 'nx':
             prog = []
             if rng.random() < 0.5:      # arrows added before the replacement must be forgotten
                 junk = shuffled(rng, nodes)[:2]
                 if len(junk) == 2 and (junk[1], junk[0]) != (x, y) and junk[0] != junk[1]:
                     prog.append(('a', junk[0], junk[1]))
-            prog.append(('g', shuffled(rng, nodes), es))
-            out.append(('nx', prog))
+            prog.append(('g', shuffled(rng, nodes), shuffled(rng, edges)))
+            out.append(('nx', sprinkle(rng, prog)))
+        elif m == 'hist':
+            # (1) calculate on an earlier graph, then reach the target graph by every kind of edit, calculate again
+            prog = []
+            if prev is not None and rng.random() < 0.6:
+                pnodes = [v for v in nodes if any(v in e for e in prev)]
+                prog += build_ops(rng, pnodes, prev, x, y, ['arrow', 'arrows', 'nx'][int(rng.integers(3))])
+                prog.append(C)
+                if rng.random() < 0.3:
+                    prog += [rejected_op(rng, pnodes, prev, x, y), C]
+                prog.append(('g', shuffled(rng, nodes), shuffled(rng, edges)))
+            else:
+                # a sub-DAG first, then the remaining arrows one by one / as a batch / by reloading the whole graph
+                es = shuffled(rng, [e for e in edges if e != (x, y)])
+                cut = int(rng.integers(0, len(es) + 1))
+                first, rest = [(x, y)] + es[:cut], es[cut:]
+                fnodes = [v for v in nodes if any(v in e for e in first)]
+                prog += build_ops(rng, fnodes, first, x, y, ['arrow', 'arrows', 'nx'][int(rng.integers(3))])
+                prog.append(C)
+                how = int(rng.integers(3))
+                if isolated or how == 2:
+                    prog.append(('g', shuffled(rng, nodes), shuffled(rng, edges)))
+                elif how == 0:
+                    for e in rest:
+                        prog.append(('a', e[0], e[1]))
+                        if rng.random() < 0.3:
+                            prog.append(C)
+                else:
+                    prog.append(('s', rest))
+            prog.append(C)
+            if rng.random() < 0.35:
+                prog += [rejected_op(rng, nodes, edges, x, y), C]
+            out.append(('hist', prog))
     return out
 
 
@@ -506,13 +649,14 @@ def run(chk, drv, rng, tier):
                                      % ('1-3 draws' if not thorough else '4-6 draws'))
     # bounded supplement: <= 4 nodes in the quick tier, <= 5 in the thorough tier
     supplement(chk, drv, graphs if thorough else {n: g for n, g in graphs.items() if n <= 4}, stats)
-    modes = ['arrow', 'arrows', 'nx']
+    modes = ['arrow', 'arrows', 'nx', 'hist']
     for n, gl in graphs.items():
         reps = (4 if n == 5 else 6) if thorough else (1 if n == 5 else 3)
         for edges in gl:
             for _ in range(reps):
                 lab, x, y, nodes, es = relabel(rng, list(range(n)), edges)
-                for kind, prog in programs_for(rng, nodes, es, x, y, modes):
+                prev = [(relabel.num[s], relabel.num[t]) for s, t in gl[int(rng.integers(len(gl)))]]
+                for kind, prog in programs_for(rng, nodes, es, x, y, modes, prev=prev):
                     check_program(chk, drv, lab, x, y, prog, kind, stats)
     # random larger DAGs
     nrand = 4000 if thorough else 1200
@@ -521,7 +665,8 @@ def run(chk, drv, rng, tier):
         p = float(rng.choice([0.2, 0.35, 0.55]))
         edges = random_dag(rng, n, p)
         lab, x, y, nodes, es = relabel(rng, list(range(n)), edges)
-        progs = programs_for(rng, nodes, es, x, y, modes)
+        prev = [(relabel.num[s], relabel.num[t]) for s, t in random_dag(rng, n, p)]
+        progs = programs_for(rng, nodes, es, x, y, modes, prev=prev)
         kind, prog = progs[int(rng.integers(len(progs)))] if not thorough else (None, None)
         for kind, prog in (progs if thorough else [(kind, prog)]):
             check_program(chk, drv, lab, x, y, prog, 'rand_' + kind, stats)
@@ -530,7 +675,8 @@ def run(chk, drv, rng, tier):
     for i in range(ntem):
         name, n, edges = template_dag(rng)
         lab, x, y, nodes, es = relabel(rng, list(range(n)), edges)
-        progs = programs_for(rng, nodes, es, x, y, modes)
+        prev = [(relabel.num[s], relabel.num[t]) for s, t in random_dag(rng, n, 0.3)]
+        progs = programs_for(rng, nodes, es, x, y, modes, prev=prev)
         for kind, prog in (progs if thorough else [progs[int(rng.integers(len(progs)))]]):
             check_program(chk, drv, lab, x, y, prog, 'tmpl_' + kind, stats)
         chk.count('template_' + name)
@@ -540,9 +686,7 @@ def run(chk, drv, rng, tier):
         n = int(rng.integers(2, 8))
         edges = random_dag(rng, n, float(rng.choice([0.3, 0.6])))
         lab, x, y, nodes, es = relabel(rng, list(range(n)), edges)
-        for extra in (n, n + 1):
-            lab[extra] = POOL[[i for i in range(len(POOL)) if POOL[i] not in lab.values()][0]]
-        prog = malformed_program(rng, nodes, es, x, y)
+        prog = sprinkle(rng, malformed_program(rng, nodes, es, x, y), p=0.25)
         check_program(chk, drv, lab, x, y, prog, 'malformed', stats)
     chk.extra.update(stats)
 
